@@ -98,10 +98,70 @@ package main
 // ---- Init: options, then the daemon (which takes the data-path lock) -------------------------------------------------------------------
 // nsqdFlagSet defines the flags; the two names Init looks up are defined, "version" as a bool flag. Nothing that exists is written.
 //@ func nsqdFlagSet(opts *nsqd.Options) *flag.FlagSet
-//@   props C06
+//@   props C06 C04 C10 C11
 //@   requires opts != nil
 //@   ensures[a-new-flag-set] result != nil && fresh(result)
 //@   ensures[version-and-config-defined] setin(r5IBoolFlags, r5IFlagKey(result, "version")) && setin(r5IFlags, r5IFlagKey(result, "version")) && setin(r5IFlags, r5IFlagKey(result, "config"))
+//   (round 6, area K) EVERY flag is defined with the value of the SAME option of the options object given (= NewOptions(), Init): go-options
+//   Resolve hands an unconfigured flag's DEFAULT to the options, so a flag defined with another option's value silently changes the daemon's
+//   defaults (C04 msg-timeout / max-req-timeout / max-msg-timeout, C10 max-msg-size / max-body-size, C03 max-rdy-count, C11 tls-required ...). One clause per flag.
+//@   ensures[default-version] setin(r6KFlagDefs, r6KDefBool(result, "version", false))
+//@   ensures[default-config] setin(r6KFlagDefs, r6KDefStr(result, "config", ""))
+//@   ensures[default-log-prefix] setin(r6KFlagDefs, r6KDefStr(result, "log-prefix", "[nsqd] "))
+//@   ensures[default-verbose] setin(r6KFlagDefs, r6KDefBool(result, "verbose", false))
+//@   ensures[default-node-id] setin(r6KFlagDefs, r6KDefInt(result, "node-id", opts.ID))
+//@   ensures[default-worker-id] setin(r6KFlagDefs, r6KDefBool(result, "worker-id", false))
+//@   ensures[default-https-address] setin(r6KFlagDefs, r6KDefStr(result, "https-address", opts.HTTPSAddress))
+//@   ensures[default-http-address] setin(r6KFlagDefs, r6KDefStr(result, "http-address", opts.HTTPAddress))
+//@   ensures[default-tcp-address] setin(r6KFlagDefs, r6KDefStr(result, "tcp-address", opts.TCPAddress))
+//@   ensures[default-auth-http-request-method] setin(r6KFlagDefs, r6KDefStr(result, "auth-http-request-method", opts.AuthHTTPRequestMethod))
+//@   ensures[default-broadcast-address] setin(r6KFlagDefs, r6KDefStr(result, "broadcast-address", opts.BroadcastAddress))
+//@   ensures[default-broadcast-tcp-port] setin(r6KFlagDefs, r6KDefInt(result, "broadcast-tcp-port", opts.BroadcastTCPPort))
+//@   ensures[default-broadcast-http-port] setin(r6KFlagDefs, r6KDefInt(result, "broadcast-http-port", opts.BroadcastHTTPPort))
+//@   ensures[default-http-client-connect-timeout] setin(r6KFlagDefs, r6KDefInt(result, "http-client-connect-timeout", opts.HTTPClientConnectTimeout))
+//@   ensures[default-http-client-request-timeout] setin(r6KFlagDefs, r6KDefInt(result, "http-client-request-timeout", opts.HTTPClientRequestTimeout))
+//@   ensures[default-topology-region] setin(r6KFlagDefs, r6KDefStr(result, "topology-region", opts.TopologyRegion))
+//@   ensures[default-topology-zone] setin(r6KFlagDefs, r6KDefStr(result, "topology-zone", opts.TopologyZone))
+//@   ensures[default-data-path] setin(r6KFlagDefs, r6KDefStr(result, "data-path", opts.DataPath))
+//@   ensures[default-mem-queue-size] setin(r6KFlagDefs, r6KDefInt(result, "mem-queue-size", opts.MemQueueSize))
+//@   ensures[default-max-bytes-per-file] setin(r6KFlagDefs, r6KDefInt(result, "max-bytes-per-file", opts.MaxBytesPerFile))
+//@   ensures[default-sync-every] setin(r6KFlagDefs, r6KDefInt(result, "sync-every", opts.SyncEvery))
+//@   ensures[default-sync-timeout] setin(r6KFlagDefs, r6KDefInt(result, "sync-timeout", opts.SyncTimeout))
+//@   ensures[default-queue-scan-worker-pool-max] setin(r6KFlagDefs, r6KDefInt(result, "queue-scan-worker-pool-max", opts.QueueScanWorkerPoolMax))
+//@   ensures[default-queue-scan-selection-count] setin(r6KFlagDefs, r6KDefInt(result, "queue-scan-selection-count", opts.QueueScanSelectionCount))
+//@   ensures[default-msg-timeout] setin(r6KFlagDefs, r6KDefInt(result, "msg-timeout", opts.MsgTimeout))
+//@   ensures[default-max-msg-timeout] setin(r6KFlagDefs, r6KDefInt(result, "max-msg-timeout", opts.MaxMsgTimeout))
+//@   ensures[default-max-msg-size] setin(r6KFlagDefs, r6KDefInt(result, "max-msg-size", opts.MaxMsgSize))
+//@   ensures[default-max-req-timeout] setin(r6KFlagDefs, r6KDefInt(result, "max-req-timeout", opts.MaxReqTimeout))
+//@   ensures[default-max-body-size] setin(r6KFlagDefs, r6KDefInt(result, "max-body-size", opts.MaxBodySize))
+//@   ensures[default-max-heartbeat-interval] setin(r6KFlagDefs, r6KDefInt(result, "max-heartbeat-interval", opts.MaxHeartbeatInterval))
+//@   ensures[default-max-rdy-count] setin(r6KFlagDefs, r6KDefInt(result, "max-rdy-count", opts.MaxRdyCount))
+//@   ensures[default-max-output-buffer-size] setin(r6KFlagDefs, r6KDefInt(result, "max-output-buffer-size", opts.MaxOutputBufferSize))
+//@   ensures[default-max-output-buffer-timeout] setin(r6KFlagDefs, r6KDefInt(result, "max-output-buffer-timeout", opts.MaxOutputBufferTimeout))
+//@   ensures[default-min-output-buffer-timeout] setin(r6KFlagDefs, r6KDefInt(result, "min-output-buffer-timeout", opts.MinOutputBufferTimeout))
+//@   ensures[default-output-buffer-timeout] setin(r6KFlagDefs, r6KDefInt(result, "output-buffer-timeout", opts.OutputBufferTimeout))
+//@   ensures[default-max-channel-consumers] setin(r6KFlagDefs, r6KDefInt(result, "max-channel-consumers", opts.MaxChannelConsumers))
+//@   ensures[default-statsd-address] setin(r6KFlagDefs, r6KDefStr(result, "statsd-address", opts.StatsdAddress))
+//@   ensures[default-statsd-interval] setin(r6KFlagDefs, r6KDefInt(result, "statsd-interval", opts.StatsdInterval))
+//@   ensures[default-statsd-mem-stats] setin(r6KFlagDefs, r6KDefBool(result, "statsd-mem-stats", opts.StatsdMemStats))
+//@   ensures[default-statsd-prefix] setin(r6KFlagDefs, r6KDefStr(result, "statsd-prefix", opts.StatsdPrefix))
+//@   ensures[default-statsd-udp-packet-size] setin(r6KFlagDefs, r6KDefInt(result, "statsd-udp-packet-size", opts.StatsdUDPPacketSize))
+//@   ensures[default-statsd-exclude-ephemeral] setin(r6KFlagDefs, r6KDefBool(result, "statsd-exclude-ephemeral", opts.StatsdExcludeEphemeral))
+//@   ensures[default-e2e-processing-latency-window-time] setin(r6KFlagDefs, r6KDefInt(result, "e2e-processing-latency-window-time", opts.E2EProcessingLatencyWindowTime))
+//@   ensures[default-tls-cert] setin(r6KFlagDefs, r6KDefStr(result, "tls-cert", opts.TLSCert))
+//@   ensures[default-tls-key] setin(r6KFlagDefs, r6KDefStr(result, "tls-key", opts.TLSKey))
+//@   ensures[default-tls-client-auth-policy] setin(r6KFlagDefs, r6KDefStr(result, "tls-client-auth-policy", opts.TLSClientAuthPolicy))
+//@   ensures[default-tls-root-ca-file] setin(r6KFlagDefs, r6KDefStr(result, "tls-root-ca-file", opts.TLSRootCAFile))
+//@   ensures[default-deflate] setin(r6KFlagDefs, r6KDefBool(result, "deflate", opts.DeflateEnabled))
+//@   ensures[default-max-deflate-level] setin(r6KFlagDefs, r6KDefInt(result, "max-deflate-level", opts.MaxDeflateLevel))
+//@   ensures[default-snappy] setin(r6KFlagDefs, r6KDefBool(result, "snappy", opts.SnappyEnabled))
+//@   ensures[default-log-level] setin(r6KFlagDefs, r6KDefInt(result, "log-level", opts.LogLevel))
+//@   ensures[default-tls-required] setin(r6KFlagDefs, r6KDefInt(result, "tls-required", opts.TLSRequired))
+//@   ensures[default-tls-min-version] setin(r6KFlagDefs, r6KDefInt(result, "tls-min-version", opts.TLSMinVersion))
+//@   ensures[default-auth-http-address-list-empty] setin(r6KFlagDefs, r6KDefLen(result, "auth-http-address", 0))
+//@   ensures[default-lookupd-tcp-address-list-empty] setin(r6KFlagDefs, r6KDefLen(result, "lookupd-tcp-address", 0))
+//@   ensures[default-e2e-processing-latency-percentile-list-empty] setin(r6KFlagDefs, r6KDefLen(result, "e2e-processing-latency-percentile", 0))
+//@   ensures[default-enable-experiment-list-empty] setin(r6KFlagDefs, r6KDefLen(result, "enable-experiment", 0))
 //   (elems(string): the list of experiment names is appended to a local slice inside a loop - the engine does not see that the backing
 //    array is the function's own)
 //@   modifies elems(string), r5IFlags, r5IBoolFlags
